@@ -164,3 +164,12 @@ Theorem relative_base_independent_of_cwd_refuted :
   exists (base : str) (ps : list str) (cwd1 cwd2 : list str),
     resolve cwd1 (posix_join base ps) <> resolve cwd2 (posix_join base ps).
 Proof. exact relative_base_follows_cwd. Qed.
+
+(* Legend cache (GetLegendGraphic): the file is "<digest>.<ext>" directly in the legend cache directory, for every
+   digest that consists of hex digits (md5 hexdigest) - the request's SCALE only enters through the digest. *)
+Theorem legend_paths_confined :
+  forall (cwd : list str) (cache_dir digest : str) (ext : string),
+    digest <> [] -> Forall digitish digest -> ~ In 47 (s2z ext) ->
+    safe (digest ++ 46 :: s2z ext) /\
+    resolve cwd (legend_location cache_dir digest ext) = resolve cwd cache_dir ++ [digest ++ 46 :: s2z ext].
+Proof. exact legend_location_resolves. Qed.
